@@ -157,8 +157,8 @@ add("C18", "fault_enumeration",
     "chains and dependent dispatchers) an uncatchable exception is raised at every executed library source line of the operation, one "
     "execution per fault point; after each fault every corpus value is probed through both entry points on its own replay and must "
     "show the complete behaviour or fail loudly; plus four kinds of invalid method at every registration position.",
-    "Trusted: CPython sys.settrace line events; one fault per execution, striking at line starts; for a mutation that was interrupted both "
-    "the old and the new method set count as complete.",
+    "Trusted: CPython sys.settrace line events; one fault per execution, striking at line starts; after an interrupted mutation the complete "
+    "set is what the library's own method table holds.",
     "exhaustive fault-point enumeration: exception injected at every library line event (sys.settrace), followed by differential probes",
     "DESIGN.md section 5 C18")
 
@@ -184,11 +184,11 @@ add("C17", "model_checking",
     "DESIGN.md section 5 C17")
 
 add("C09", "model_checking",
-    "Every body of the grammar context[call] (37 contexts x 8 call forms x 4 special names x 5 function kinds) is built twice from one source "
+    "Every body of the grammar context[call] (38 contexts x 11 call forms x 4 special names x 5 function kinds; thorough: depth 2 with 12 expression wrappers) is built twice from one source "
     "text - registered on a real Ovld (rewritten by the library) and exec'd with the special names bound to ordinary callables of a "
     "reference interpreter - and the two are compared on acceptance, result, exception, order / multiplicity of argument evaluation, "
     "generator laziness, defaults, and file / line of the raising frame.",
-    "Trusted: the reference interpreter's ordinary callables (never the library's dispatcher); nesting depth 1 of the grammar.",
+    "Trusted: the reference interpreter's ordinary callables (never the library's dispatcher); nesting depth 1 (thorough 2) of the grammar.",
     "bounded-exhaustive enumeration of a body grammar, differential execution of rewritten vs un-rewritten source",
     "DESIGN.md section 5 C09")
 
